@@ -141,7 +141,7 @@ func (sa *Safe) callOne(fr *frame, st *State, x *ssa.Call, callee *ssa.Function,
 			args = append([]AVal{r}, args[1:]...)
 		}
 	}
-	if callee.Pkg != nil && IsRepoPkg(callee.Pkg.Pkg) && callee.Blocks != nil {
+	if repoFn(callee) {
 		for _, f := range sa.stack {
 			if f == callee {
 				if fr.fn == callee && rankedSelfRecursion(callee, x) {
@@ -171,6 +171,16 @@ func (sa *Safe) callOne(fr *frame, st *State, x *ssa.Call, callee *ssa.Function,
 		if child == nil {
 			child = sa.newFrame(callee, fr.depth+1)
 			fr.child[k] = child
+		}
+		// captured values of a closure called here
+		if !x.Common().IsInvoke() && len(callee.FreeVars) > 0 {
+			if fv := sa.val(fr, st, x.Common().Value); fv.Clo != nil && fv.Clo.fn == callee {
+				for i, v := range callee.FreeVars {
+					if i < len(fv.Clo.bind) {
+						child.regs[v] = fv.Clo.bind[i]
+					}
+				}
+			}
 		}
 		sa.stack = append(sa.stack, callee)
 		res := sa.analyzeFunc(child, args, st)
@@ -615,6 +625,15 @@ func (sa *Safe) stdlib(fr *frame, st *State, x *ssa.Call, callee *ssa.Function, 
 		need("safe.stdlib-pre", linConst(n), b.Len, fmt.Sprintf("%s needs at least %d octets", callee.Name(), n))
 		sa.havocElems(st, b)
 		return none()
+	case "(encoding/binary.bigEndian).AppendUint16", "(encoding/binary.bigEndian).AppendUint32", "(encoding/binary.bigEndian).AppendUint64",
+		"(encoding/binary.littleEndian).AppendUint16", "(encoding/binary.littleEndian).AppendUint32", "(encoding/binary.littleEndian).AppendUint64":
+		n := map[string]int64{"16": 2, "32": 4, "64": 8}[name[len(name)-2:]]
+		b := args[len(args)-2]
+		var ln *Lin
+		if b.Len != nil {
+			ln = b.Len.addConst(n)
+		}
+		return one(sa.sliceResult(fr, st, sig.Results().At(0).Type(), desc, ln, true))
 	case "fmt.Errorf", "errors.New":
 		return one(sa.nonNilErr())
 	case "encoding/hex.EncodeToString":
@@ -687,6 +706,16 @@ func (sa *Safe) stdlib(fr *frame, st *State, x *ssa.Call, callee *ssa.Function, 
 		v := sa.boundedAtom(fr, st, types.Typ[types.Int], desc, Itv{-1, posInf})
 		if args[0].Len != nil {
 			st.assume(v.Lin.add(args[0].Len, -1).addConst(1)) // result <= len - 1
+		}
+		return one(v)
+	case "strings.TrimSuffix", "strings.TrimPrefix":
+		// the result is s or s without the affix: len(s) - len(affix) <= len(result) <= len(s)
+		v := sa.freshM(fr, st, types.Typ[types.String], desc, nilMaybe)
+		if args[0].Len != nil {
+			st.assume(v.Len.add(args[0].Len, -1)) // len(result) <= len(s)
+			if args[1].Len != nil {
+				st.assume(args[0].Len.add(args[1].Len, -1).add(v.Len, -1)) // len(s) - len(affix) <= len(result)
+			}
 		}
 		return one(v)
 	case "strings.Split", "strings.SplitN":
